@@ -231,8 +231,8 @@ class StmtMixin:
         nk = z3.Const(fresh_name("dk"), SeqV)
         i = z3.IndexOf(keys, z3.Unit(k.t), 0)
         st.assume(nk == z3.Concat(z3.SubSeq(keys, 0, i), z3.SubSeq(keys, i + 1, z3.Length(keys) - i - 1)))
-        st.write("$dkeys", Val.r(c.t), nk)
-        st.write("$dhas", Val.r(c.t), z3.Store(st.read("$dhas", Val.r(c.t)), k.t, False))
+        st.write("$dkeys", vr(c.t), nk)
+        st.write("$dhas", vr(c.t), z3.Store(st.read("$dhas", vr(c.t)), k.t, False))
 
     # ------------------------------------------------------------------ assignment
     def bind_target(self, st, target, val):
@@ -282,7 +282,7 @@ class StmtMixin:
                 if target.attr in self.track_writes and not self.spec_depth:
                     s2.trace.append(Effect("write:" + target.attr, [obj, val], lineno, s2.copy()))
                     self.on_effect(s2, s2.trace[-1])        # guard evaluated in the state before the write
-                s2.write(target.attr, Val.r(obj.t), val.t)
+                s2.write(target.attr, vr(obj.t), val.t)
                 out.append(Res(s2))
             return out
         if isinstance(target, ast.Subscript):
@@ -296,11 +296,11 @@ class StmtMixin:
                         self.oblige(f"dict-inv {c.src[1]}[...] entry written at L{lineno}: {self.reg.dict_fact(base_type(c.src[0].ty), c.src[1])}", "inv-pres", f, s2, lineno)
                     return [Res(s2)]
                 if ty == "list":
-                    seq = self.elems(s2, c); i = Val.i(key.t)
+                    seq = self.elems(s2, c); i = vi(key.t)
                     idx = z3.If(i < 0, z3.Length(seq) + i, i)
                     s2.assume(z3.And(idx >= 0, idx < z3.Length(seq)))   # IndexError not modelled on stores
                     ns = z3.Concat(z3.SubSeq(seq, 0, idx), z3.Unit(val.t), z3.SubSeq(seq, idx + 1, z3.Length(seq) - idx - 1))
-                    s2.write("$elems", Val.r(c.t), ns)
+                    s2.write("$elems", vr(c.t), ns)
                     return [Res(s2)]
                 raise Unsupported(f"store into {c.ty} at line {lineno}")
             return self.evseq(st, [target.value, target.slice], k)
@@ -313,9 +313,9 @@ class StmtMixin:
         self.touch_key(st, key)
         keys = self.dkeys(st, c)
         has = self.dhas(st, c, key.t)
-        st.write("$dkeys", Val.r(c.t), z3.If(has, keys, z3.Concat(keys, z3.Unit(key.t))))
-        st.write("$dhas", Val.r(c.t), z3.Store(st.read("$dhas", Val.r(c.t)), key.t, True))
-        st.write("$dmap", Val.r(c.t), z3.Store(self.dmap(st, c), key.t, val.t))
+        st.write("$dkeys", vr(c.t), z3.If(has, keys, z3.Concat(keys, z3.Unit(key.t))))
+        st.write("$dhas", vr(c.t), z3.Store(st.read("$dhas", vr(c.t)), key.t, True))
+        st.write("$dmap", vr(c.t), z3.Store(self.dmap(st, c), key.t, val.t))
 
     def ex_Assign(self, st, s):
         out = []
@@ -587,13 +587,13 @@ class StmtMixin:
         kk = z3.Const(fresh_name("k"), Val)
         if f == "$dmap":
             x = z3.Select(z3.Select(arr, o), kk)
-            fact = qforall([o, kk], z3.Implies(Val.is_RefV(x), Val.r(x) < bound), patterns=[x])
+            fact = qforall([o, kk], z3.Implies(Val.is_RefV(x), vr(x) < bound), patterns=[x])
         elif f in ("$elems", "$dkeys"):
             x = z3.Select(arr, o)[j]
-            fact = qforall([o, j], z3.Implies(z3.And(0 <= j, j < z3.Length(z3.Select(arr, o)), Val.is_RefV(x)), Val.r(x) < bound), patterns=[x])
+            fact = qforall([o, j], z3.Implies(z3.And(0 <= j, j < z3.Length(z3.Select(arr, o)), Val.is_RefV(x)), vr(x) < bound), patterns=[x])
         elif not f.startswith("$"):
             x = z3.Select(arr, o)
-            fact = qforall([o], z3.Implies(Val.is_RefV(x), Val.r(x) < bound), patterns=[x])
+            fact = qforall([o], z3.Implies(Val.is_RefV(x), vr(x) < bound), patterns=[x])
         else:
             return None
         if st is not None:
@@ -628,8 +628,8 @@ class StmtMixin:
             f = self.dotted(node.func)
             if f == "range":
                 def k(s, vs):
-                    if len(vs) == 1: lo, hi = z3.IntVal(0), Val.i(vs[0].t)
-                    elif len(vs) == 2: lo, hi = Val.i(vs[0].t), Val.i(vs[1].t)
+                    if len(vs) == 1: lo, hi = z3.IntVal(0), vi(vs[0].t)
+                    elif len(vs) == 2: lo, hi = vi(vs[0].t), vi(vs[1].t)
                     else: raise Unsupported("range step")
                     n = z3.If(hi > lo, hi - lo, 0)
                     return [Res(s, Iter(n, lambda j: V(IntV(lo + j), "int")))]
@@ -765,7 +765,7 @@ class StmtMixin:
             st.assume(self.same_collection(st, st0, it.src))
 
     def same_collection(self, st, st0, src):
-        r = Val.r(src.t)
+        r = vr(src.t)
         if base_type(src.ty) == "dict":
             return z3.And(z3.Select(st.field("$dkeys"), r) == z3.Select(st0.field("$dkeys"), r),
                           z3.Select(st.field("$dhas"), r) == z3.Select(st0.field("$dhas"), r))
